@@ -30,6 +30,9 @@ type Batch struct {
 	FirstTs   int64
 	MaxTs     int64
 	Codec     int8 // not seen by the model
+	// AttrHigh: reserved attribute bits (outside 0x3f, e.g. 0x40 hasDeleteHorizonMs of Kafka >= 3.1) the broker sets on
+	// the wire; clients must ignore them, so the model does not see them
+	AttrHigh uint16
 }
 
 type LMsg struct {
@@ -201,6 +204,28 @@ func (r *Resp) codecs() []int8 {
 	return c
 }
 
+// reserved attribute bits of all units of the response in order (0 for legacy blocks)
+func (r *Resp) attrs() ([]uint16, bool) {
+	var a []uint16
+	any := false
+	add := func(e Entry) {
+		if e.Batch != nil {
+			a = append(a, e.Batch.AttrHigh)
+			any = any || e.Batch.AttrHigh != 0
+		}
+		for range e.Legacy {
+			a = append(a, 0)
+		}
+	}
+	for _, e := range r.Entries {
+		add(e)
+	}
+	if r.Victim != nil {
+		add(r.Victim.entry())
+	}
+	return a, any
+}
+
 // Text is the op line ("resp ..."); tokens starting with '#' are ignored by the Lean driver and carry what
 // only the implementation side needs (codecs, the cut unit, throttle time, ground-truth fates).
 func (r *Resp) Text() string {
@@ -233,6 +258,13 @@ func (r *Resp) Text() string {
 				p[i] = strconv.Itoa(int(c))
 			}
 			sb.WriteString(" #codecs=" + strings.Join(p, ","))
+		}
+		if as, any := r.attrs(); any {
+			p := make([]string, len(as))
+			for i, a := range as {
+				p[i] = strconv.Itoa(int(a))
+			}
+			sb.WriteString(" #attrs=" + strings.Join(p, ","))
 		}
 		if r.Victim != nil {
 			fmt.Fprintf(&sb, " #victim=%s #cut=%d", r.Victim.entry().Text(), r.Cut)
@@ -317,12 +349,17 @@ func ParseResp(line string) (r *Resp, err error) {
 	}
 	r = &Resp{}
 	var codecs []int8
+	var attrs []uint16
 	var plain []string
 	for _, x := range t[1:] {
 		switch {
 		case strings.HasPrefix(x, "#codecs="):
 			for _, c := range strings.Split(x[8:], ",") {
 				codecs = append(codecs, int8(atoi64(c)))
+			}
+		case strings.HasPrefix(x, "#attrs="):
+			for _, c := range strings.Split(x[7:], ",") {
+				attrs = append(attrs, uint16(atoi64(c)))
 			}
 		case strings.HasPrefix(x, "#victim="):
 			e := parseEntry(x[8:])
@@ -369,16 +406,23 @@ func ParseResp(line string) (r *Resp, err error) {
 			r.Entries = append(r.Entries, parseEntry(es))
 		}
 		i := 0
+		var curAttr uint16
 		next := func() int8 {
+			curAttr = 0
+			if i < len(attrs) {
+				curAttr = attrs[i]
+			}
 			if i < len(codecs) {
 				i++
 				return codecs[i-1]
 			}
+			i++
 			return 0
 		}
 		for ei := range r.Entries {
 			if r.Entries[ei].Batch != nil {
 				r.Entries[ei].Batch.Codec = next()
+				r.Entries[ei].Batch.AttrHigh = curAttr
 			}
 			for li := range r.Entries[ei].Legacy {
 				r.Entries[ei].Legacy[li].Codec = next()
@@ -387,6 +431,7 @@ func ParseResp(line string) (r *Resp, err error) {
 		if r.Victim != nil {
 			if r.Victim.Bat != nil {
 				r.Victim.Bat.Codec = next()
+				r.Victim.Bat.AttrHigh = curAttr
 			} else {
 				r.Victim.Blk.Codec = next()
 			}
